@@ -141,8 +141,9 @@ deriving BEq, DecidableEq, Repr
 
 /-- an archive entry as the reader yields it.  `data` are the payload bytes that can be read, `short` says that the
     reader reports an error after them (tar: fewer bytes present than the header declares; zip: checksum mismatch).
-    `link` is the link name (tar) or the payload of a symlink entry (zip).  `Kind.corrupt` is a header the reader
-    rejects. -/
+    `link` is the link name (tar) or the payload of a symlink entry (zip).  `Kind.corrupt` is a tar header the reader
+    rejects, or a zip file / symbolic-link entry whose `Open()` fails (unsupported compression method, bad local
+    header) — both extractors return the error before anything is created for that entry. -/
 structure Entry where
   kind : Kind
   name : List Nat
@@ -215,6 +216,7 @@ def zipOne (fs : FS) (root : P) (mask : Nat) (e : Entry) : FS × Bool :=
       match mkdirAll fs path (perm e.mode &&& mask) with
       | none => (fs, false)
       | some fs1 => (fs1, true)
+    | .corrupt => (fs, false)                      -- f.Open() fails (unsupported method, bad local header): nothing is created
     | _ =>
       match mkdirAll fs path.dropLast (0o755 &&& mask) with
       | none => (fs, false)
